@@ -36,6 +36,7 @@ META = {
     "discipline (C28/C29). Not covered: durations that fire synchronously at subscription (statement silent), duration observables "
     "that fail, custom subject_mapper, groups subscribed late or never, partition outputs subscribed at different instants.",
 }
+META["text"] += "; thread part: group_by_until with the durations firing on another thread than the source: every element in exactly one group of its key, every group and the result terminated"
 RULE = (
     "all (instance, timeline): instance from the tier's tables (operator x key function x element mapper x duration selector, or "
     "partition x predicate x subscription policy), timeline in TL(N, alphabet) with bursts and same-instant terminals, terminal in "
